@@ -52,6 +52,24 @@ _time_hdr_fmt = np.dtype(dict(
 _spc_fmt = np.dtype("(10,4)>S1")
 
 
+def _add_days(yyjjj, ndays):
+    """
+    Add ndays to two-digit-year julian dates (YYJJJ, years 1970-2069)
+    rolling over the end of the year
+    """
+    out = np.array(yyjjj, dtype='i', ndmin=1).copy()
+    for i, n in enumerate(np.array(ndays, dtype='i', ndmin=1)):
+        yy, jjj = divmod(int(out[i]), 1000)
+        jjj += int(n)
+        ylen = 366 if yy % 4 == 0 else 365
+        while jjj > ylen:
+            jjj -= ylen
+            yy = (yy + 1) % 100
+            ylen = 366 if yy % 4 == 0 else 365
+        out[i] = yy * 1000 + jjj
+    return out
+
+
 def ncf2uamiv(ncffile, outpath):
     """
     ncf2uamiv converts a ncffile to a uamiv file
@@ -168,7 +186,7 @@ def ncf2uamiv(ncffile, outpath):
             tincr = np.diff(time_s)[0]
         date_e = date_s.copy()
         time_e = time_s.copy() + tincr
-        date_e += (time_e // 24).astype('i')
+        date_e = _add_days(date_e, (time_e // 24).astype('i'))
         time_e -= (time_e // 24) * 24
     time_hdr['ibdate'] = date_s
     time_hdr['btime'] = time_s
